@@ -44,7 +44,6 @@ func init() {
 		"strings.Index":                    inIndexString,
 		"strings.Contains":                 inStringsContains,
 		"strings.EqualFold":                inEqualFold,
-		"(*strings.Builder).String":        nil,
 
 		"crypto/md5.New": inMD5New,
 		"crypto/md5.Sum": inMD5Sum,
@@ -73,9 +72,11 @@ func init() {
 
 		"net.SplitHostPort": inSplitHostPort,
 		"strconv.Itoa": inItoa,
+		"strings.Join": inStringsJoin,
+		"(*strings.Builder).String":    inBuilderString,
+		"(*strings.Builder).copyCheck": inNoop,
 		"strconv.FormatBool": inFormatBool,
 	}
-	delete(intrinsics, "(*strings.Builder).String")
 }
 
 func (e *Engine) findIntrinsic(fn *ssa.Function) intrinsicFn {
@@ -964,6 +965,25 @@ func inSplitHostPort(e *Engine, st *State, fn *ssa.Function, args []Value, site 
 		return one(st, &TupleV{[]Value{e.mkStr(host), e.mkStr(cs[i+1:]), &IfaceV{}}})
 	}
 	panic(unsupported("net.SplitHostPort on symbolic string"))
+}
+
+func inStringsJoin(e *Engine, st *State, fn *ssa.Function, args []Value, site ssa.Instruction) []Outcome {
+	elems := e.variadic(st, args[0])
+	sep := args[1].(*StrV)
+	out := e.mkStr("")
+	for i, el := range elems {
+		if i > 0 {
+			out = e.strConcat(out, sep)
+		}
+		out = e.strConcat(out, el.(*StrV))
+	}
+	return one(st, out)
+}
+
+func inBuilderString(e *Engine, st *State, fn *ssa.Function, args []Value, site ssa.Instruction) []Outcome {
+	p := args[0].(*PtrV)
+	buf := e.loadPtr(st, &PtrV{obj: p.obj, path: append(append([]PathElem(nil), p.path...), PathElem{field: 1})})
+	return one(st, e.sliceAsStr(st, buf.(*SliceV)))
 }
 
 func inItoa(e *Engine, st *State, fn *ssa.Function, args []Value, site ssa.Instruction) []Outcome {
